@@ -132,11 +132,11 @@ Lemma smk_of_row s r : und s -> In r (subs s) -> s_deleted r = false -> smk s (s
 Proof. intros U Hin D. unfold smk. rewrite (find_sub_in (s_user r) (subs s) r U Hin eq_refl), D. reflexivity. Qed.
 
 (* initTopicP2P, every branch *)
-Lemma kinit_p2p_keq f s n u1 u2 s' c n' ns :
-  und s -> p2p_parties s u1 u2 -> (t_exists s = false -> subs s = []) ->
+Lemma kinit_p2p_keq_gen f s n u1 u2 s' c n' ns :
+  und s -> (alookup u2 (users s) <> None -> p2p_parties s u1 u2) -> (t_exists s = false -> subs s = []) ->
   kinit_p2p f s n u1 u2 = KOk s' c n' ns -> keq s' c.
 Proof.
-  intros U PP NE H. unfold kinit_p2p in H.
+  intros U PP0 NE H. unfold kinit_p2p in H.
   destruct (call f n) as [ok1 n1]. destruct (negb ok1); [discriminate|].
   destruct (t_exists s) eqn:EX.
   - (* the topic exists *)
@@ -149,6 +149,7 @@ Proof.
       destruct (N.eqb u1 u2) eqn:NEQ; [discriminate|].
       destruct (alookup u1 (users s)) as [acc1|]; [|discriminate].
       destruct (alookup u2 (users s)) as [acc2|]; [|discriminate].
+      assert (p2p_parties s u1 u2) as PP by (apply PP0; discriminate).
       destruct (p2p_rows s) as [|r [|r2 [|r3 rest]]] eqn:RS; cbn in L0, L2; try discriminate.
       * (* exactly one subscription *)
         assert (In r (p2p_rows s)) as Hin by (rewrite RS; now left).
@@ -185,6 +186,11 @@ Proof.
     intros u m. rewrite (N.eqb_sym u2 u1), NEQ, kmk_two, !smk_sub_create. cbn [kp_of_sub kp_deleted kp_read kp_recv kp_delid].
     destruct (N.eqb u u2); [destruct (N.eqb u u1); auto|]. destruct (N.eqb u u1); [auto|discriminate].
 Qed.
+
+Lemma kinit_p2p_keq f s n u1 u2 s' c n' ns :
+  und s -> p2p_parties s u1 u2 -> (t_exists s = false -> subs s = []) ->
+  kinit_p2p f s n u1 u2 = KOk s' c n' ns -> keq s' c.
+Proof. intros U PP. apply kinit_p2p_keq_gen; auto. Qed.
 
 (* AFTER ANY LOAD every cached mark (read, recv, delID) is the stored mark of that same user's row
    (0 for a row the load has just created): every topic kind, every branch, any failing store call *)
